@@ -48,6 +48,9 @@ func e2eChild() {
 	vk.ChildArgs(&a)
 	traces.m = map[uint32][]traceEv{}
 	rtpconn.VerifSetTraceHook(func(ssrc uint32, kind int, x, y uint16) {
+		if kind != rtpconn.VerifTraceStored && kind != rtpconn.VerifTraceLoopNACK && kind != rtpconn.VerifTraceWriterNACK {
+			return // trace points of other checks (down tracks)
+		}
 		traces.mu.Lock()
 		traces.m[ssrc] = append(traces.m[ssrc], traceEv{kind, x, y})
 		traces.mu.Unlock()
